@@ -23,11 +23,11 @@ RULE = ("embedded: ytk, ptk, cidar, ecoflex, plant - every item (exhaustive, 362
         "CIDAR and EcoFlex part families written as GenBank under stems with dots/dashes/spaces/unicode, extensions from {gb, gbk} and "
         "unsupported {gbff, txt, fasta, GB, gb.bak}, custom extensions= tuples, sub-directories (one named like a GenBank file) holding "
         "plasmids, junk files; absent keys include sub-directory names, junk stems, unsupported-extension stems, keys with path "
-        "separators and parent references; combinations: sequences of 1..5 members drawn with repetition from embedded registries, generated "
+        "separators and parent references; embedded registries re-used (same and new instance) after a first load aborted by an exception injected at a random record; combinations: sequences of 1..5 members drawn with repetition from embedded registries, generated "
         "directories sharing ids with them, and nested combinations of these. Non-trivial = a registry with >= 1 key whose every item was looked up, or a combination with a shared id; "
         "distinct = distinct registry contents.")
 ASSUMPTIONS = ["directory entries that are typed GenBank plasmids have pairwise distinct stems", "the eLabFTW (network) registry is out of scope"]
-FLOORS = {"c20_items_checked": 400, "c20_absent_keys_checked": 300, "c20_directories": 40, "c20_combinations": 30, "c20_shared_id_checks": 20, "c20_embedded_registries": 5}
+FLOORS = {"c20_aborted_loads": 4, "c20_items_checked": 400, "c20_absent_keys_checked": 300, "c20_directories": 40, "c20_combinations": 30, "c20_shared_id_checks": 20, "c20_embedded_registries": 5}
 MUST_REACH = ["EmbeddedRegistry.__iter__", "EmbeddedRegistry.__len__", "FilesystemRegistry.__getitem__", "CombinedRegistry.add_registry", "find_resistance"]
 NEEDS_REGISTRIES = True
 BUDGET_S = {"quick": 900, "thorough": 7200}
@@ -41,9 +41,10 @@ def setup(tier):
 
 def cases(tier, seed):
     out = [{"kind": "embedded", "reg": r} for r in regs.NAMES]
-    n = 60 if tier == "quick" else 2000
+    out += [{"kind": "embedded-after-aborted-load", "reg": r, "seed": seed, "n": n} for r in regs.NAMES for n in range(1 if tier == "quick" else 6)]
+    n = 60 if tier == "quick" else 6000
     out += [{"kind": "directory", "i": i, "seed": seed, "fs": "mem" if i % 3 else "os"} for i in range(n)]
-    out += [{"kind": "combined", "i": i, "seed": seed} for i in range(40 if tier == "quick" else 1000)]
+    out += [{"kind": "combined", "i": i, "seed": seed} for i in range(40 if tier == "quick" else 4000)]
     return out
 
 
@@ -199,7 +200,7 @@ def _emb(name):
     return _emb_cache[name]
 
 
-STEMS = ["{k}", "{k}.v2", "x-{k}", "{k}_copy", "a b {k}", "{k}.gb", "é{k}", "{k}-1.2.3"]
+STEMS = ["{k}", "{k}.v2", "x-{k}", "{k}_copy", "a b {k}", "{k}.gb", "é{k}", "{k}-1.2.3", "{k}_1kb", "{k}_big", "{k}.", "{k}k", "gb{k}g"]
 GOOD_EXT = ["gb", "gbk"]
 BAD_EXT = ["gbff", "txt", "fasta", "GB", "gb.bak", "genbank"]
 
@@ -224,6 +225,75 @@ def execute(mat, ctx):
         ctx.hist("embedded_items", mat["reg"], len(items))
         ctx.nontrivial(["embedded", mat["reg"], len(members)])
         ctx.sample({"kind": "embedded", "registry": mat["reg"], "keys": len(members), "first_keys": sorted(members)[:4]}, cap=5)
+        return
+    if kind == "embedded-after-aborted-load" and not mat.get("in_fresh_interpreter"):
+        # must be the very first load of that archive in the process: run the scenario in a fresh interpreter and merge
+        # what its monitors observed
+        import json
+        import subprocess
+        from .. import core
+
+        code = ("import sys, json; sys.path.insert(0, %r); from mon import boot, core; boot.boot(); from mon.props import C20; "
+                "ctx = core.Ctx('C20'); C20.worker_init(ctx, 'quick'); ctx.current = %r; C20.execute(dict(%r, in_fresh_interpreter=True), ctx); "
+                "print('RESULT' + json.dumps(ctx.dump(), default=str))" % (core.VERIF, mat, mat))
+        env = dict(os.environ, PYTHONHASHSEED="0", PYTHONWARNINGS="ignore")
+        p = subprocess.run([sys.executable, "-c", code], stdout=subprocess.PIPE, stderr=subprocess.PIPE, timeout=600, env=env)
+        line = [l for l in p.stdout.decode().splitlines() if l.startswith("RESULT")]
+        if p.returncode != 0 or not line:
+            raise core.Inconclusive("fresh interpreter failed: " + p.stderr.decode()[-400:])
+        d = json.loads(line[-1][6:])
+        for k, v in d["counters"].items():
+            ctx.counters[k] += v
+        for v in d["violations"]:
+            if len(ctx.violations) < ctx.MAX_VIOL:
+                ctx.violations.append(v)
+        for k, v in d["viol_by_mech"].items():
+            ctx.viol_by_mech[k] += v
+        for sgn in d["sigs"]:
+            ctx.sigs.add(sgn)
+        for smp in d["samples"]:
+            ctx.sample(smp, cap=1)
+        return
+    if kind == "embedded-after-aborted-load":
+        # a first access whose archive load is aborted by an exception (fault injected at the j-th record), then normal use:
+        # the same instance and a new instance must both be complete mappings again
+        import Bio.SeqIO
+        import pkg_resources
+
+        rng = gen.rng_for(mat["seed"], PROP, kind, mat["reg"], mat["n"])
+        Rcls = regs.registries()[mat["reg"]]
+        R = Rcls()
+        path = pkg_resources.resource_filename(R._module, R._file)
+        with tarfile.open(path) as tar:
+            members = [m.name for m in tar.getmembers()]
+        stop = rng.randrange(len(members))
+        orig = Bio.SeqIO.read
+        state = {"n": 0}
+
+        class InjectedLoadFault(Exception):
+            pass
+
+        def failing(*a, **kw):
+            state["n"] += 1
+            if state["n"] > stop:
+                raise InjectedLoadFault("injected at record %d" % stop)
+            return orig(*a, **kw)
+
+        Bio.SeqIO.read = failing
+        try:
+            try:
+                R[members[-1]]
+            except InjectedLoadFault:
+                ctx.count("c20_aborted_loads")
+            except Exception as e:
+                ctx.hist("aborted_load_other_exception", type(e).__name__)
+        finally:
+            Bio.SeqIO.read = orig
+        ctx.count("evaluations")
+        for label, reg in (("embedded-same-instance-after-aborted-load:" + mat["reg"], R), ("embedded-new-instance-after-aborted-load:" + mat["reg"], Rcls())):
+            check_mapping(ctx, reg, members, label.replace("embedded-", "embedded:", 1) if False else label, {"registry": mat["reg"], "load_aborted_at_record": stop})
+        ctx.nontrivial(["aborted", mat["reg"], stop])
+        ctx.sample({"kind": kind, "registry": mat["reg"], "load_aborted_at_record": stop, "records": len(members)}, cap=1)
         return
     rng = gen.rng_for(mat["seed"], PROP, kind, mat["i"])
     pool = typed_pool()
